@@ -85,6 +85,66 @@ theorem recovers (y : Sys) (tid now : Nat) (r : Addr.Req) (hg : Guard y.strat)
     rw [hg'] at hres
     exact (dispatch_result _ g tid now r).2.2.2.2 hres
 
+/-- **The limiter gate opens by itself.** A client that has no bucket yet, or whose bucket was last
+touched at least one refill period ago, is admitted — whatever the bucket holds (any fault
+history may have drained it), for every configuration with `max_tokens ≥ 1`. -/
+theorem spend_after_refill (c : RL.Cfg) (b : RL.Bucket) (now : Nat) (hmax : 1 ≤ c.max) (hR : 0 < c.refill)
+    (hidle : b.last + c.refill ≤ now) : (RL.spend c b now).2 = true := by
+  have hadd : 1 ≤ (now - b.last) / c.refill := by
+    rw [Nat.le_div_iff_mul_le hR]; omega
+  simp only [RL.spend, RL.refill]
+  have h0 : 0 < (now - b.last) / c.refill := by omega
+  simp only [h0, if_true]
+  have : 0 < min (b.tokens + (now - b.last) / c.refill) c.max := by
+    rw [Nat.lt_min]; omega
+  simp [this]
+
+theorem rlGate_admits (y : Sys) (now : Nat) (r : Addr.Req)
+    (h : ∀ c m, y.rl = some (c, m) → 1 ≤ c.max ∧ 0 < c.refill ∧
+      (m (Bytes.hex (Addr.clientIP r)) = none ∨
+       ∃ b, m (Bytes.hex (Addr.clientIP r)) = some b ∧ b.last + c.refill ≤ now)) :
+    (rlGate y now r).2 = true := by
+  simp only [rlGate]
+  cases hrl : y.rl with
+  | none => rfl
+  | some p =>
+    obtain ⟨c, m⟩ := p
+    obtain ⟨hmax, hR, hb⟩ := h c m hrl
+    simp only [RL.step, RL.allow1]
+    rcases hb with hb | ⟨b, hb, hidle⟩
+    · -- a fresh bucket is full
+      simp only [hb, RL.bucketOf, RL.fresh, RL.spend, RL.refill]
+      have : ¬ (0 < (now - now) / c.refill) := by simp
+      simp only [this, if_false]
+      have : 0 < c.max := by omega
+      simp [this]
+    · simp only [hb, RL.bucketOf]
+      rw [spend_after_refill c b now hmax hR hidle]; simp
+
+/-- **Recovery by the passage of time alone.** From ANY balancer state — whatever faults
+happened before — once (i) the client's bucket has been idle for one refill period (or the
+client is new), (ii) the breaker is closed, or its open timeout has elapsed, or it is half-open
+with budget left (`breaker_gate_opens`: true whenever nothing is in flight and the timeout
+elapsed), and (iii) some backend's unhealthy window has ended, the next request is forwarded
+to a backend outside its unhealthy window. -/
+theorem recovers_by_time (y : Sys) (tid now : Nat) (r : Addr.Req) (hg : Guard y.strat)
+    (hrl : ∀ c m, y.rl = some (c, m) → 1 ≤ c.max ∧ 0 < c.refill ∧
+      (m (Bytes.hex (Addr.clientIP r)) = none ∨
+       ∃ b, m (Bytes.hex (Addr.clientIP r)) = some b ∧ b.last + c.refill ≤ now))
+    (hcb : ∀ c s, y.cb = some (c, s) → cbAdmits c s now)
+    (o : Obj) (ho : o ∈ y.pool) (hh : o.b.inWindow now = false) :
+    ∃ name, (begin y tid now r).2 = .fwd name ∧
+      ∃ o' ∈ y.pool, o'.b.name = name ∧ o'.b.inWindow now = false := by
+  apply recovers y tid now r hg
+  · exact rlGate_admits { y with total := y.total + 1 } now r hrl
+  · intro c s hcs
+    have : (rlGate { y with total := y.total + 1 } now r).1.cb = y.cb := by
+      simp only [rlGate]; split <;> rfl
+    rw [this] at hcs
+    exact hcb c s hcs
+  · exact ho
+  · exact hh
+
 end Helios.LB
 
 namespace Helios.CB
